@@ -7,6 +7,9 @@ BASE_NOTE = ("Trusted base: the instrumenter's rewrite table (DESIGN.md 3.1), si
              "(fake clock, quiescence), the reference models/codecs written for this check, and the bounds of the tier. "
              "Sampling, not enumeration: a clean batch is evidence, not proof.")
 CHECKS = {
+ "C01": dict(engine="simrt+refcodec", cat="exploration", ref="DESIGN.md 5/C01",
+   text="Seeded search over RDB files written by an independent reference writer (all types/encodings/length forms, metadata opcodes, >16 MiB hashes) parsed by the real loader behind a fragmenting, truncating stream with producer/consumer interleaving; every record compared field by field and byte for byte with the file.",
+   tech="deterministic simulation: reference RDB writer as generator/oracle, simulated stream with fragmentation and truncation faults, scheduled producer/consumer"),
  "C18": dict(engine="simrt", cat="exploration", ref="DESIGN.md 5/C18",
    text="Seeded search over writer/reader/closer scripts and lock-granularity interleavings of the real backlog ring against an absolute-offset log model (interval semantics for in-flight writes), with lost-wake-up analysis at quiescence.",
    tech="deterministic simulation: tape-driven baton scheduler over instrumented locks/conds + absolute-offset log model"),
